@@ -31,6 +31,14 @@ def includes_multi(tree, sel, order_seed, tu):
     incs = [i for i in incs if not (i in seen or seen.add(i))]
     if order_seed is not None:
         random.Random("%s|%s" % (order_seed, tu)).shuffle(incs)
+        if tu.startswith("other") and len(incs) > 1:
+            # in the second TU au/au.hh always comes last, so that some *selected* header is the
+            # very first thing the compiler sees: with one selected header (the single-selection
+            # and spine plans) that header is compiled entirely on its own
+            incs.remove("au/au.hh")
+            incs.append("au/au.hh")
+            if incs[0] == "au/io.hh" and len(incs) > 2:
+                incs[0], incs[1] = incs[1], incs[0]
     return incs
 
 
